@@ -2,6 +2,6 @@
 \* Hangs are caught by the NoHang invariant, so terminal states may simply end a trace.
 SPECIFICATION Spec
 INVARIANTS
-  TypeOK NoSchedulerPanic NoUnable OrderOK StagesDisjoint AlsoNeverRuns
+  TypeOK NoSchedulerPanic NoUnable OrderOK ReadsFromCanonical StagesDisjoint AlsoNeverRuns
   SuccessImpliesRan DoneMeansAll ErrorReported NoHang CountersExactUnlessAbort
 CHECK_DEADLOCK FALSE
